@@ -11,6 +11,7 @@ Definition Sx (cpp : bool) (ts : list ptok) (tr : ast) (rk : nat) : Prop :=
     opos (bef s) -> pstart (bef s) ts -> nojux rest -> ND (bef s) (ts ++ rest) ->
     (forall r a, r < rk -> quiet cpp r (rev ts ++ bef s) a rest) ->
     (rk = 14 -> forall a, quiet cpp 14 (rev ts ++ bef s) (S a) rest) ->
+    (rk = 1 -> forall a, quiet cpp 1 (rev ts ++ bef s) a rest) ->
     cont cpp (comp cpp f) (S f) n rk d (mkafter s ts tr, rest) = Some out ->
     comp cpp (S f) d (s, ts ++ rest) = Some out.
 
@@ -29,7 +30,13 @@ Definition ender (ts : list ptok) : Prop :=
   exists pre t, ts = pre ++ [t] /\ strict_ender (snd t) = true.
 
 Lemma ender_aft : forall ts b, ender ts -> aft (rev ts ++ b).
-Proof. intros ts b [pre [t [-> H]]]. rewrite rev_app_distr. exact H. Qed.
+Proof. intros ts b [pre [t [-> H]]]. rewrite rev_app_distr. left. exact H. Qed.
+
+(* the tokens end an operand (possibly with a postfix ++/--) *)
+Definition ender2 (ts : list ptok) : Prop := forall b, aft (rev ts ++ b).
+
+Lemma ender_ender2 : forall ts, ender ts -> ender2 ts.
+Proof. intros ts H b. apply ender_aft. exact H. Qed.
 
 Lemma match_nonnil : forall {A B} (r : list A) (x y : B), r <> [] -> match r with [] => x | _ :: _ => y end = y.
 Proof. intros A B [|a r] x y H; [contradiction|reflexivity]. Qed.
@@ -40,7 +47,7 @@ Lemma Sx_atom : forall cpp t,
   match snd t with TLB => False | _ => True end ->
   Sx cpp [t] (L t) 0.
 Proof.
-  intros cpp t Hterm Hnlb f d s rest out n Hrk Hd Hn Hlen Hop Hps Hj Hnd Hq Hq14 Hc.
+  intros cpp t Hterm Hnlb f d s rest out n Hrk Hd Hn Hlen Hop Hps Hj Hnd Hq Hq14 Hq1 Hc.
   rewrite comp_eq. cbn [app].
   assert (Hh : p2_head (s, t :: rest) = Some (mkafter s [t] (L t), rest)).
   { unfold p2_head. destruct (snd t) eqn:E; try (unfold scope; apply Hterm; assumption). destruct Hnlb. }
@@ -101,7 +108,7 @@ Lemma Sx_paren : forall cpp ts tr rk l1 l2,
   Sx cpp ts tr rk -> rk <= 15 -> balanced ts ->
   Sx cpp ((l1, TLP) :: ts ++ [(l2, TRP)]) tr 0.
 Proof.
-  intros cpp ts tr rk l1 l2 IH Hrk15 Hbal f d s rest out n _ Hd Hn Hlen Hop _ Hj Hnd _ _ Hc.
+  intros cpp ts tr rk l1 l2 IH Hrk15 Hbal f d s rest out n _ Hd Hn Hlen Hop _ Hj Hnd _ _ _ Hc.
   cbn [length] in Hn. rewrite app_length in Hn. cbn [length] in Hn.
   cbn [app] in *. rewrite <- app_assoc in *. cbn [app] in *.
   cbn [length] in Hlen. rewrite app_length in Hlen. cbn [length] in Hlen.
@@ -123,6 +130,7 @@ Proof.
     - reflexivity.
     - unfold s1. cbn [set_bef bef]. apply ND_cons. exact Hnd.
     - intros r a Hr. apply quiet_closer; [left; reflexivity|lia].
+    - intros _ a. apply quiet_closer; [left; reflexivity|lia].
     - intros _ a. apply quiet_closer; [left; reflexivity|lia].
     - unfold mkafter. apply cont_quiet; [exact Hrk15|]. intros r Hr. apply quiet_closer; [left; reflexivity|exact Hr]. }
   rewrite Hin.
@@ -172,8 +180,6 @@ Proof.
     cbn [hd_is] in Hc. rewrite Hc, andb_false_r. reflexivity.
 Qed.
 
-Lemma bin_opr_not_incdec : forall o, is_incdec (TOp (bin_opr o)) = false.
-Proof. destruct o; reflexivity. Qed.
 
 Lemma rev_mid : forall (ra rb : list ptok) t b, rev (ra ++ t :: rb) ++ b = rev rb ++ t :: rev ra ++ b.
 Proof. intros. rewrite rev_app_distr. cbn [rev]. rewrite <- !app_assoc. reflexivity. Qed.
@@ -181,10 +187,10 @@ Proof. intros. rewrite rev_app_distr. cbn [rev]. rewrite <- !app_assoc. reflexiv
 Lemma Sx_bin : forall cpp o l ra ta ka rb tb kb,
   Sx cpp ra ta ka -> Sx cpp rb tb kb ->
   ka <= binrank o -> kb < binrank o ->
-  ender ra -> starter1 rb -> ra <> [] ->
+  ender2 ra -> starter1 rb -> ra <> [] ->
   Sx cpp (ra ++ (l, TOp (bin_opr o)) :: rb) (B (l, TOp (bin_opr o)) ta tb) (binrank o).
 Proof.
-  intros cpp o l ra ta ka rb tb kb IHa IHb Hka Hkb Hend Hst Hra f d s rest out n Hrk Hd Hn Hlen Hop Hps Hj Hnd Hq Hq14 Hc.
+  intros cpp o l ra ta ka rb tb kb IHa IHb Hka Hkb Hend Hst Hra f d s rest out n Hrk Hd Hn Hlen Hop Hps Hj Hnd Hq Hq14 Hq1 Hc.
   destruct (binrank_range o) as [Hk3 Hk13].
   set (k := binrank o) in *. set (op := (l, TOp (bin_opr o))) in *.
   rewrite app_length in Hn. cbn [length] in Hn.
@@ -217,6 +223,8 @@ Proof.
       - intros r a0 Hr. unfold s1, sa, mkafter. cbn [bef asgn].
         rewrite <- rev_mid. apply Hq. lia.
       - intros E. lia.
+      - intros E a0. unfold s1, sa, mkafter. cbn [bef asgn].
+        rewrite <- rev_mid. apply Hq. lia.
       - unfold mkafter. apply cont_quiet; [lia|]. intros r Hr. unfold s1, sa, mkafter. cbn [bef asgn stk depth].
         rewrite <- rev_mid. apply Hq. lia. }
     change (t1 :: rb' ++ rest) with (rb ++ rest). rewrite Hb.
@@ -247,14 +255,15 @@ Proof.
   - apply (pstart_app_l _ ra (op :: rb) Hra). exact Hps.
   - reflexivity.
   - exact Hnd.
-  - intros r a0 Hr. apply quiet_binop; [apply ender_aft; exact Hend|]. fold k. lia.
+  - intros r a0 Hr. apply quiet_binop; [apply Hend|]. fold k. lia.
   - intros E. lia.
+  - intros E a0. apply quiet_binop; [apply Hend|]. fold k. lia.
   - fold sa. unfold cont.
     destruct (Nat.eq_dec ka k) as [->|Hne].
     + apply Hstep; [lia|]. cbn [length] in *. lia.
     + (* the loops ka .. k-1 stop at the operator *)
       assert (Hqa : forall r, r < k -> quiet cpp r (bef sa) (asgn sa) (op :: rb ++ rest)).
-      { intros r Hr. unfold sa, mkafter. cbn [bef asgn]. apply quiet_binop; [apply ender_aft; exact Hend|exact Hr]. }
+      { intros r Hr. unfold sa, mkafter. cbn [bef asgn]. apply quiet_binop; [apply Hend|exact Hr]. }
       unfold sa at 1, mkafter at 1. rewrite (Hqa ka) by lia.
       replace (d - ka) with ((k - S ka) + S (d - k)) by lia.
       rewrite climb_app. unfold mkafter.
